@@ -5,6 +5,15 @@
 typedef struct { const char *name; int (*fn)(const vh_args_t *); } fam_t;
 static const fam_t FAMS[] = {
   {"mul", fam_mul},
+  {"move", fam_move},
+  {"rowops", fam_rowops},
+  {"obs", fam_obs},
+  {"elim", fam_elim},
+  {"ple", fam_ple},
+  {"trsm", fam_trsm},
+  {"inv", fam_inv},
+  {"solve", fam_solve},
+  {"kernel", fam_kernel},
   {NULL, NULL}};
 
 static void cfg_event(void) {
@@ -18,6 +27,7 @@ int vh_run_family(const vh_args_t *a) {
   for (const fam_t *f = FAMS; f->name; f++)
     if (!strcmp(f->name, a->family)) {
       vh_ctx_new(a->out, a->seed, 0);
+      if (strstr(a->extra, "views")) vh_views = 1;
       if (a->env & 1) vh_poison_alloc = 1;
       if (a->env & 2) vh_poison_free = 1;
       cfg_event();
